@@ -50,6 +50,16 @@ def observe(chk, programs: list[dict]):
     return obs, node
 
 
+def _no_surrogates(tree):
+    """the strict parser is Rust: a \\uD83D escape in a GraphQL string becomes U+FFFD there, a lone surrogate in python"""
+    if isinstance(tree, dict):
+        return {k: ([0xFFFD if isinstance(c, int) and 0xD800 <= c <= 0xDFFF else c for c in v] if k == "cps" else _no_surrogates(v))
+                for k, v in tree.items()}
+    if isinstance(tree, list):
+        return [_no_surrogates(x) for x in tree]
+    return tree
+
+
 def records_c12(items, obs, node):
     recs, unreadable, selfcheck = [], 0, 0
     for it, o in zip(items, obs):
@@ -73,9 +83,13 @@ def records_c12(items, obs, node):
             if strict.get("ok") and op["readable"]:
                 # self-check of the tolerant reader against the strict parser of h_compile (same text unless swc and
                 # Node disagree on the JavaScript value, which only happens for surrogate escapes)
-                if pb.strip_strict_tree(strict["selections"]) != pb.strip_strict_tree(op["selections"]):
+                if _no_surrogates(pb.strip_strict_tree(strict["selections"])) != _no_surrogates(pb.strip_strict_tree(op["selections"])):
                     if not any(c > 0xFFFF or c == 0xFFFD for c in r["text_cps"]):
-                        raise ToolError(f"tolerant reader disagrees with the strict parser on {path} of program {o['id']}")
+                        dump = Path("/verif/work") / f"c12_selfcheck_{o['id']}.json"
+                        dump.parent.mkdir(exist_ok=True)
+                        dump.write_text(json.dumps({"program": it.get("prog"), "text": text, "strict": pb.strip_strict_tree(strict["selections"]),
+                                                    "loose": pb.strip_strict_tree(op["selections"])}, indent=1))
+                        raise ToolError(f"tolerant reader disagrees with the strict parser on {path} of program {o['id']} (both trees in {dump})")
                 selfcheck += 1
             if not op["readable"]:
                 unreadable += 1
